@@ -8,6 +8,7 @@ spec: Emboss/Spec/Text.lean; helper lemmas: Emboss/Lemmas/Text*.lean.
 import Emboss.Lemmas.TextIntWrite
 import Emboss.Lemmas.TextWrite
 import Emboss.Lemmas.TextStruct
+import Emboss.Lemmas.TextLayout
 import Emboss.Model.TextRead
 namespace Emboss.Text
 open Spec Emboss.Deps
@@ -177,6 +178,45 @@ theorem C06_struct_roundtrip_counterexample :
       simp at hg; subst hg; cases hge)
     simp [exData, exBuf, zeroBuf] at this
 
+/-- The round trip for *described* structures — leaves with layout expressions
+(Emboss/Model/TextLayout.lean): conditional fields (`present`), dynamically placed fields and
+arrays with a dynamic element count (one leaf per index, present iff the index is below the
+count), `let` fields inlined.  If the syntactic check `depCheck` passes (everything an emitted
+leaf's condition / location reads lies in bytes covered by emitted, unconditional, statically
+placed leaves that stand earlier in the text), then for every buffer of `size` bits
+`UpdateFromText(WriteToString(·))` into the zeroed buffer succeeds and every emitted leaf that
+exists in the original exists at the same place with the same bits afterwards.  The same
+`update`/`writeText` on the same descriptions is compared with the real code byte for byte
+on every run (driver op `SRT`). -/
+theorem C06_struct_roundtrip_described (size : Nat) (ls : List Leaf) (b : Buf)
+    (h : depCheck size [] ls = true) :
+    ∃ b1, update zeroBuf (writeText (ls.map (Leaf.sem size)) b) = some b1 ∧
+      ∀ l ∈ ls, l.emitted = true → ∀ a, l.loc size b = some a →
+        l.loc size b1 = some a ∧ a.map b1 = a.map b := by
+  have hd : DepOk [] (ls.map (Leaf.sem size)) := by simpa using depCheck_sound size ls [] h
+  obtain ⟨b1, h1, h2⟩ := C06_struct_roundtrip_partial (ls.map (Leaf.sem size)) b hd
+  exact ⟨b1, h1, fun l hl hem a ha => h2 (Leaf.sem size l) (List.mem_map_of_mem hl) hem a ha⟩
+
+/-! Non-vacuity: `struct Foo: let big = n > 1; let at = n * 2; if big: 1 [+1] UInt flag;
+3+at [+n] UInt:8[] data (≤ 2 elements shown); 0 [+1] UInt n` in the text order `n, flag, data[0],
+data[1]`, buffer of 9 bytes. -/
+def exLeaves (nEmitted : Bool) : List Leaf :=
+  [ ⟨.const 1, .const 0, 8, nEmitted⟩,
+    ⟨.gt (.byte 0) (.const 1), .const 8, 8, true⟩,
+    ⟨.gt (.byte 0) (.const 0), .mul (.const 8) (.add (.const 3) (.mul (.byte 0) (.const 2))), 8, true⟩,
+    ⟨.gt (.byte 0) (.const 1), .mul (.const 8) (.add (.const 4) (.mul (.byte 0) (.const 2))), 8, true⟩ ]
+
+/-- n = 2, flag = 9, data at 3 + 4 = 7: 5, 6 -/
+def exBytes : List Nat := [2, 9, 0, 0, 0, 0, 0, 5, 6]
+
+example : depCheck 72 [] (exLeaves true) = true ∧
+    structRoundTrip (exLeaves true) exBytes = some exBytes := by decide +kernel
+
+/-- With `n` not written (Skip) the check fails — and so does the update of the zeroed buffer
+(open finding `skip-field-determines-layout-of-emitted-field`). -/
+example : depCheck 72 [] (exLeaves false) = false ∧
+    structRoundTrip (exLeaves false) exBytes = none := by decide +kernel
+
 /-- Emission order, presence and absence: the write clauses are the fields of
 `fields_in_dependency_order`, in that order, minus those whose `text_output` attribute is
 present and different from `"Emit"`; so `Skip` ⇒ absent, `Emit` or no attribute ⇒ present.
@@ -219,6 +259,29 @@ theorem C06_emission_after_dependencies (deps : DepFn) (params order l1 l2 : Lis
   have hcons : f :: l2 = [f] ++ l2 := rfl
   simp only [textNames, writeClauses]
   rw [hcons, List.filter_append, List.filter_append, List.filter_append, List.filter_append]
+
+/-- The same for dependencies *through other fields* (`DependsOn` = transitive closure of the
+mention relation, virtual fields included — they hold no data, so a physical field located
+through `let off = n * 2` really depends on `n`): in the ordering of C15 every field `d` that
+`f` depends on, directly or indirectly, is a runtime parameter or stands before `f`, hence is
+written before `f` if it is written at all (`textNames` keeps the order, first conjunct of
+`C06_emission_after_dependencies`).  An ordering that treats virtual fields as always available
+(seeded change C06-m2) is not `TopoFrom` and is refuted by the harness on the real code. -/
+theorem C06_emission_after_transitive_dependencies (deps : DepFn) (params order l1 l2 : List Nat)
+    (f d : Nat) (h : TopoFrom deps params order) (hp : ∀ p ∈ params, deps p = [])
+    (hs : order = l1 ++ f :: l2) (hd : DependsOn deps f d) : d ∈ params ∨ d ∈ l1 := by
+  subst hs
+  exact topoFrom_transitive deps params hp hd l1 l2 h
+
+/-- Non-vacuity: field 0 (`payload`) is located through the virtual field 1 (`let off = n * 2`),
+whose input is field 2 (`n`), declared last; parameter 7 has no dependencies.  C15's ordering
+puts `n`, `off`, `payload`; `payload` depends on `n` only through `off`. -/
+def exVDeps : DepFn := fun f => if f = 0 then [1] else if f = 1 then [2, 7] else []
+example : order exVDeps [7] [0, 1, 2] = [2, 1, 0] ∧ TopoFrom exVDeps [7] [2, 1, 0] ∧
+    (∀ p ∈ [7], exVDeps p = []) ∧ DependsOn exVDeps 0 2 ∧ 2 ∉ exVDeps 0 ∧
+    ¬ TopoFrom exVDeps [7] [0, 2, 1] := by
+  refine ⟨by decide, by decide, by decide, ?_, by decide, by decide⟩
+  exact .step (m := 1) (by decide) (.direct (by decide))
 
 /-! ## The array reader refuses the multi-line writer's own output (open finding) -/
 
